@@ -1159,6 +1159,8 @@ def f_compute(P):
         ("inner-compute", r"\b%s\.compute\(([^;]*)\);" % G, r"geigs_compute(&%s, \1);" % G, {"max": 1}),
         ("inner-info", r"\b%s\.info\(\)" % G, "%s.info" % G, {"max": 1}),
         ("snapshots", r"(for \(int %s = 0; %s < %s; %s\+\+\))" % (IT, IT, MAXIT, IT), r"const int verif_info_l = m_info; \1", {"max": 1}),
+        # ghost snapshot before each residual refill: the refill itself does not define anything but the block being refilled
+        ("refill-snapshot", r"(?<=;)(\s*)(for \(int i = 0; i < m_nev; i\+\+\))", r"\1const _Bool verif_unch_l = g_unch; \2", {"min": 2, "max": 2}),
     ]
     # locals of matrix type declared before the loop: all of them may be assigned by an iteration
     pre_loop = f.body[:ml.start()]
@@ -1179,7 +1181,7 @@ def f_compute(P):
            "(self->m_info != EIGEN_Success || verif_info_l == EIGEN_Success) && "
            "SH_OK(self->m_residuals) && SH_OK(self->m_evectors)) " +
            "__CPROVER_decreases(%s - %s)" % (MAXIT, IT))
-    fill = ("__CPROVER_assigns(i, g_unch) __CPROVER_loop_invariant(0 <= i && i <= self->m_nev) __CPROVER_decreases(self->m_nev - i)")
+    fill = ("__CPROVER_assigns(i, g_unch) __CPROVER_loop_invariant(0 <= i && i <= self->m_nev && g_unch == verif_unch_l) __CPROVER_decreases(self->m_nev - i)")
     refills = []
     for m in re.finditer(r"m_residuals\.resize\(m_n, m_nev\);\s*for \(int i = 0; i < m_nev; i\+\+\)\s*\{", f.body):
         refills.append(" ".join(f.body[m.start():X.match_close(f.body, m.end() - 1) + 1].split()))
@@ -1301,7 +1303,7 @@ def stored_trace(prop, g, o, keep=80):
                         continue
                     fn = st.get("sourceLocation", {}).get("function")
                     lhs = st.get("lhs") or ""
-                    if fn in ("compute", "h") and not lhs.startswith("__") and "write_set" not in lhs and "$" not in lhs:
+                    if fn in ("compute", "h") and not lhs.startswith("__") and "write_set" not in lhs and "$" not in lhs and lhs not in ("set", "ptr", "tmp_if_expr", "self"):
                         v = st.get("value", {})
                         out.append({"lhs": lhs, "value": v.get("data", v.get("name")), "line": st.get("sourceLocation", {}).get("line"), "function": fn})
     except (OSError, ValueError):
